@@ -909,6 +909,23 @@ class BasisManaged(Managed):
     def unprotect_basis(self):
         self.is_basis_protected = False
         
+    def __copy__(self):
+        """Shallow copy of a basis managed object
+        
+        A copy is a new basis managed object. If it is made inside a basis
+        context (e.g. by `apply` methods of superoperators, which return 
+        a copy of their argument), it has to be registered with the basis 
+        it is represented in, like any other object created there. Otherwise
+        it would not be transformed back when the context is left.
+        
+        """
+        cls = self.__class__
+        new = cls.__new__(cls)
+        new.__dict__.update(self.__dict__)
+        cb = new.get_current_basis()
+        if cb in self.manager.basis_registered:
+            self.manager.register_with_basis(cb, new)
+        return new
         
 
 
